@@ -99,7 +99,7 @@ def cases(tier, seed):
         for N in _sizes(d):
             for R in space.ranks_binary(d) if d <= 4 else space.ranks_dev(d, maxdev=2):
                 for dt, fam in DTF:
-                    for op in ('neg', 'pos', 'pow_none', 'kron_none_l', 'kron_none_r', 'full'):
+                    for op in ('neg', 'pos', 'pow_none', 'rpow_none', 'kron_none_l', 'kron_none_r', 'full'):
                         yield {'g': 'E', 'op': op, 'N': N, 'R': R, 'dt': dt, 'fam': fam, 's': salt}
     for d1 in range(1, 4):
         for d2 in range(1, 4):
@@ -116,6 +116,9 @@ def cases(tier, seed):
             for dt in ('f64', 'c128', 'f32'):
                 for fac in ('ones', 'zeros', 'eye', 'rank1', 'meshgrid'):
                     yield {'g': 'F', 'fac': fac, 'N': N, 'dt': dt, 'k': 't'}
+                if d >= 2 and len(set(N)) < d:
+                    # the SAME tensor object passed for several axes of equal size
+                    yield {'g': 'F', 'fac': 'meshgrid_alias', 'N': N, 'dt': dt, 'k': 't'}
     for d in range(1, 4):
         for M in space.sizes_full(d):
             for N in space.sizes_distinct(d):
@@ -300,7 +303,7 @@ def _unary(c):
             if not ok:
                 viol.append(V('full.value', 'max diff %.3e' % ref.maxdiff(ref.up(f), dx)))
         return Outcome(key, nt, 'full', violations=viol)
-    fn = {'neg': lambda: -x, 'pos': lambda: +x, 'pow_none': lambda: x ** None, 'kron_none_l': lambda: torchtt.kron(None, x),
+    fn = {'neg': lambda: -x, 'pos': lambda: +x, 'pow_none': lambda: x ** None, 'rpow_none': lambda: None ** x, 'kron_none_l': lambda: torchtt.kron(None, x),
           'kron_none_r': lambda: torchtt.kron(x, None)}[op]
     want = -dx if op == 'neg' else dx
     res, e = call(fn)
@@ -375,8 +378,14 @@ def _factory(c):
         if e is None:
             viol = check_tt(res, want, 'factory.rank1', dtype, True, 2.0 ** (2 * len(N)), ttm=False)
     else:  # meshgrid
-        vecs = [values.dense_tensor([n], dt, 'int', 0, 'v%d' % i) for i, n in enumerate(N)]
-        res, e = call(torchtt.meshgrid, [v.clone() for v in vecs])
+        fac = 'meshgrid'
+        if c['fac'] == 'meshgrid_alias':
+            bysize = {}
+            vecs = [bysize.setdefault(n, values.dense_tensor([n], dt, 'int', 0, 'v%d' % n)) for n in N]     # aliased objects
+            res, e = call(torchtt.meshgrid, list(vecs))
+        else:
+            vecs = [values.dense_tensor([n], dt, 'int', 0, 'v%d' % i) for i, n in enumerate(N)]
+            res, e = call(torchtt.meshgrid, [v.clone() for v in vecs])
         if e is None:
             wants = torch.meshgrid(*[ref.up(v) for v in vecs], indexing='ij')
             if not isinstance(res, list) or len(res) != len(N):
